@@ -131,9 +131,14 @@ Definition isolated_left (conf conf_lower : list Z) (pos : nat) : bool :=
       negb (first_text <? pos)%nat
   end.
 
-(* `if (pos < conf.size()-key.size()-1)` is size_t arithmetic: it wraps when conf.size() <= key.size(), and then
-   conf[pos+key.size()] is the terminating '\0' (nth's default) *)
+(* `if (pos+key.size() < conf.size())`: the character that follows the keyword, if there is one, is a delimiter
+   (the pinned code tested `pos < conf.size()-key.size()-1`, which skipped the test for the last character of the
+   string and, by size_t wrap-around, never matched a string equal to the keyword: repaired) *)
 Definition isolated_right (conf : list Z) (pos klen : nat) : bool :=
+  if (pos + klen <? length conf)%nat then memb (nth (pos + klen) conf 0) delims_right else true.
+
+(* the test as the pinned code made it (kept for the record; not used by the model) *)
+Definition isolated_right_pinned (conf : list Z) (pos klen : nat) : bool :=
   let n := length conf in
   if (n <? klen + 1)%nat then memb (nth (pos + klen) conf 0) delims_right
   else if (pos <? n - klen - 1)%nat then memb (nth (pos + klen) conf 0) delims_right
